@@ -372,7 +372,30 @@ func (ex *Exec) prepare(decl *ast.FuncDecl) {
 					}
 				}
 			}
+		case *ast.IncDecStmt:
+			if id, ok := unparen(s.X).(*ast.Ident); ok {
+				if o := info.Uses[id]; o != nil {
+					ex.reassigned[o] = true
+				}
+			}
 		case *ast.AssignStmt:
+			if s.Tok != token.DEFINE {
+				for _, l := range s.Lhs {
+					if id, ok := unparen(l).(*ast.Ident); ok {
+						if o := info.Uses[id]; o != nil {
+							ex.reassigned[o] = true
+						}
+					}
+				}
+			} else {
+				for _, l := range s.Lhs {
+					if id, ok := l.(*ast.Ident); ok {
+						if o := info.Uses[id]; o != nil { // redeclaration in := assigns an existing variable
+							ex.reassigned[o] = true
+						}
+					}
+				}
+			}
 			for i, l := range s.Lhs {
 				id, ok := l.(*ast.Ident)
 				if !ok {
